@@ -15,6 +15,7 @@ import traceback
 
 VERIF = os.path.dirname(os.path.dirname(os.path.abspath(__file__)))
 REPO = os.environ.get("VERIF_REPO", "/repo")
+CACHE_DIR = os.environ.get("SYMJNP_CACHE_DIR") or os.path.join(VERIF, ".cache")  # (override: runs against scratch copies keep their own cache)
 
 
 def setup_paths():
@@ -112,7 +113,7 @@ def tree_key():
 
 
 def _cache_path(item):
-    d = os.path.join(VERIF, ".cache", tree_key())
+    d = os.path.join(CACHE_DIR, tree_key())
     os.makedirs(d, exist_ok=True)
     return os.path.join(d, hashlib.sha256(repr(item).encode()).hexdigest()[:32] + ".json")
 
@@ -140,7 +141,7 @@ def run_items(items, jobs=None):
     jobs = jobs or min(16, os.cpu_count() or 4)
     tree_key()
     # prune caches of other trees
-    cdir = os.path.join(VERIF, ".cache")
+    cdir = CACHE_DIR
     if os.path.isdir(cdir) and not os.environ.get("SYMJNP_NO_CACHE"):
         import shutil
         for d in os.listdir(cdir):
@@ -196,6 +197,93 @@ def _cached_result(item, results, i):
         except Exception:
             return False
     return False
+
+
+# ------------------------------------------------- thorough tier: bounded conformance sweep
+CONF_CONFIGS = 5
+
+
+def _conf_work(job):
+    """BOUNDED stand-in (never counted as proved): the harness of one (contract, case) is run natively -- real jax,
+    float64 -- on a few concrete configurations and the result of the real function is compared with the spec
+    evaluated numerically.  Validates, on this tree, the trusted base of the proof (the jax.numpy shim and the spec
+    evaluator) at these points."""
+    name, label, seed, k = job
+    from symjnp import contracts as CT
+    from symjnp import native
+    out = {"item": f"{name}[{label}]", "evaluated": 0, "agree": 0, "skipped": 0, "errors": [], "mismatch": []}
+    c = CT.REGISTRY[name]
+    case = next((x for x in c.cases if x.label == label), None)
+    if case is None:
+        return out
+    for b in native.battery(seed, k):
+        try:
+            r = native.run_native(c, case, dict(b), seed)
+        except Exception as ex:
+            out["errors"].append(f"{type(ex).__name__}: {str(ex)[:160]}")
+            continue
+        if "skipped" in r:
+            out["skipped"] += 1
+            continue
+        out["evaluated"] += 1
+        if r.get("confirmed"):
+            out["mismatch"].append({"inputs": r.get("inputs"), "detail": r.get("detail")})
+        else:
+            out["agree"] += 1
+    return out
+
+
+def conformance(items, seed, k=CONF_CONFIGS, jobs=None):
+    import concurrent.futures as cf
+    jobs = jobs or min(16, os.cpu_count() or 4)
+    work = [(n, l, seed, k) for (kind, n, l) in items if kind == "contract"]
+    res = []
+    try:
+        with cf.ProcessPoolExecutor(max_workers=max(1, min(jobs, len(work))), mp_context=mp.get_context("spawn"), initializer=_worker_init) as ex:
+            futs = [ex.submit(_conf_work, w) for w in work]
+            done, pending = cf.wait(futs, timeout=max(1800, 12 * len(work)))
+            for f in done:
+                try:
+                    res.append(f.result())
+                except Exception as e:
+                    res.append({"item": "?", "evaluated": 0, "agree": 0, "skipped": 0, "errors": [f"worker: {e}"], "mismatch": []})
+            for f in pending:
+                f.cancel()
+            if pending:
+                for p in list(getattr(ex, "_processes", {}).values()):
+                    p.kill()
+    except Exception as e:
+        res.append({"item": "?", "evaluated": 0, "agree": 0, "skipped": 0, "errors": [f"pool: {e}"], "mismatch": []})
+    return res
+
+
+def lean_axioms():
+    """thorough tier: the schemes behind the math symbols ER/COS/SIN/SQRT/PI/RPOW (A1-A4, A8) are Lean theorems over
+    Mathlib in lemmas/Axioms.lean; re-checked by `lean` (once per content of that file)."""
+    import shutil
+    import subprocess
+    src = os.path.join(VERIF, "lemmas", "Axioms.lean")
+    if not os.path.exists(src) or shutil.which("lean") is None:
+        return {"checked": False, "reason": "lean or lemmas/Axioms.lean not available"}
+    text = open(src).read()
+    key = hashlib.sha256(text.encode()).hexdigest()[:16]
+    cpath = os.path.join(CACHE_DIR, f"lean_axioms_{key}.json")
+    if os.path.exists(cpath) and not os.environ.get("SYMJNP_NO_CACHE"):
+        try:
+            return dict(json.load(open(cpath)), reused=True)
+        except Exception:
+            pass
+    t0 = time.time()
+    try:
+        p = subprocess.run(["lean", src], cwd=os.path.join(VERIF, "lemmas"), capture_output=True, text=True, timeout=3600)
+        out = {"checked": True, "file": "lemmas/Axioms.lean", "exit": p.returncode, "theorems": len(re.findall(r"^theorem ", text, re.M)),
+               "uses_sorry": "sorry" in text or "sorry" in (p.stdout + p.stderr), "output": (p.stdout + p.stderr)[-1500:], "wall_s": round(time.time() - t0, 1)}
+    except Exception as ex:
+        out = {"checked": False, "reason": f"{type(ex).__name__}: {ex}"}
+    if out.get("checked") and out["exit"] == 0:
+        os.makedirs(os.path.dirname(cpath), exist_ok=True)
+        json.dump(out, open(cpath, "w"))
+    return out
 
 
 # ----------------------------------------------------------------------- known findings
@@ -297,6 +385,24 @@ def check(prop, tier="quick", seed=0):
             vio_lines.append(f"VIOLATION property={prop} replay={path} obligation=\"{ob['name']}\"")
     for ln in lines + vio_lines:
         print(ln)
+    conf = lean = None
+    if tier == "thorough":
+        lean = lean_axioms()
+        print(f"{prop}: lean lemmas/Axioms.lean: {json.dumps({k: v for k, v in lean.items() if k != 'output'})}")
+        cres = conformance(items, seed)
+        mism = [dict(m, item=r["item"]) for r in cres for m in r["mismatch"]]
+        conf = {"label": "BOUNDED (not proof): real jax float64 vs numerically evaluated spec",
+                "bound": f"{CONF_CONFIGS} configurations per (contract, case) from the fixed battery: N in 3..10, L in {{1,3,25/4,7/2}}, dt in {{.1,.7,.3}}, "
+                         f"other named reals seeded in [-1.5,1.5] (VERIF_SEED={seed}); relative tolerance 1e-7",
+                "cases": len(cres), "evaluations": sum(r["evaluated"] for r in cres), "agree": sum(r["agree"] for r in cres),
+                "skipped_requires_not_met": sum(r["skipped"] for r in cres),
+                "harness_errors": sum(len(r["errors"]) for r in cres),
+                "harness_error_samples": sorted({e for r in cres for e in r["errors"]})[:8],
+                "mismatches": mism[:20]}
+        for m in mism[:10]:
+            print(f"CONFORMANCE-MISMATCH item={m['item']} inputs={json.dumps(m['inputs'])[:300]} detail={str(m['detail'])[:300]}")
+        print(f"{prop}: bounded conformance sweep: cases={conf['cases']} evaluations={conf['evaluations']} agree={conf['agree']} "
+              f"skipped={conf['skipped_requires_not_met']} harness_errors={conf['harness_errors']} mismatches={len(mism)}")
     funcs = {}
     for r in results:
         if r["kind"] != "contract":
@@ -344,6 +450,9 @@ def check(prop, tier="quick", seed=0):
         "wall_s": round(time.time() - t0, 2),
         "violations": len(violations),
     }
+    if conf is not None:
+        ev["coverage"]["bounded_conformance_sweep"] = conf
+        ev["coverage"]["math_axioms_rechecked_by_lean"] = lean
     evdir = os.environ.get("SYMJNP_EVIDENCE_DIR") or os.path.join(VERIF, "evidence")  # (override: runs on scratch copies)
     os.makedirs(evdir, exist_ok=True)
     json.dump(ev, open(os.path.join(evdir, f"{prop}.json"), "w"), indent=1, default=str)
@@ -359,6 +468,14 @@ def check(prop, tier="quick", seed=0):
         for o in unknown[:10]:
             print(f"UNDECIDED {o['name']}")
         return 2
+    if lean is not None and lean.get("checked") and (lean.get("exit") != 0 or lean.get("uses_sorry")):
+        print(f"TOOL-ERROR lean rejected lemmas/Axioms.lean: {lean.get('output', '')[-600:]}")
+        return 3
+    if conf is not None and conf["mismatches"]:
+        # every obligation is discharged in exact arithmetic, yet the real code and the spec differ natively at a concrete
+        # input: the trusted base (shim / spec evaluator) or floating point is involved -- a checker inconsistency, exit 3
+        print("INCONSISTENT: proof discharged but the bounded native sweep disagrees (see CONFORMANCE-MISMATCH lines)")
+        return 3
     return 0
 
 
